@@ -1,2 +1,45 @@
-(* C11 placeholder *)
-From Rdest Require Import Base Consts Wire Manager Handler.
+(* C11 — the client never advertises a piece it has not verified. *)
+From Rdest Require Import Base Consts Wire Manager MgrProofs Handler HandlerProofs.
+Open Scope N_scope.
+
+(* the bitfield the manager hands to a connection marks exactly the pieces that are Have at that moment,
+   and that is what the task writes after the handshake (C11_actions, Bitfield case) *)
+Theorem C11_bitfield : forall m a id pick m' r bc sp, mstep m (CInit a id) pick = Ok (m', r, bc, sp) ->
+  r = RBitfield (map is_have (m_status m)) /\ bc = [].
+Proof. exact init_bitfield. Qed.
+
+(* a SendHave broadcast for piece i happens only when a connection reports piece i done (hash-verified and
+   stored, C01), and i is Have from then on *)
+Theorem C11_broadcast : forall m c pick m' r bc sp i, mstep m c pick = Ok (m', r, bc, sp) -> In (BHave i) bc ->
+  exists a p, c = CPieceDone a /\ pget (m_peers m) a = Some p /\ p_piece_index p = Some i /\ have_at (m_status m') (N.to_nat i).
+Proof. exact have_broadcast_only_when_done. Qed.
+Theorem C11_have_stays : forall m c pick m' r bc sp i, mstep m c pick = Ok (m', r, bc, sp) ->
+  have_at (m_status m) i -> have_at (m_status m') i.
+Proof. exact have_absorbing. Qed.
+
+(* on a connection, a Have frame is written only for a broadcast being processed or for one held back earlier;
+   a Bitfield frame is exactly the manager's answer *)
+Theorem C11_actions : forall sha1 cf disk ovf s ev r,
+  forallb (act_ok sha1 cf s ev r) (acts_of (hstep sha1 cf disk ovf s ev r)) = true.
+Proof. intros. apply actions_ok. reflexivity. Qed.
+
+(* announcements are held back while the peer chokes us and all delivered, in completion order, when it unchokes *)
+Theorem C11_held_back : forall sha1 cf disk ovf s i r, h_choked s = true -> h_rx s = None ->
+  hstep sha1 cf disk ovf s (EBroadHave i) r = HCont (set_buff s (h_msg_buff s ++ [i])) [].
+Proof. exact have_buffered_while_choked. Qed.
+Theorem C11_sent_at_once : forall sha1 cf disk ovf s i r, h_choked s = false -> h_rx s = None ->
+  hstep sha1 cf disk ovf s (EBroadHave i) r = HCont s [ASend (Wire.Have i)].
+Proof. exact have_sent_when_unchoked. Qed.
+Theorem C11_flush : forall sha1 cf disk ovf s r o, h_hs_done s = true -> h_choked s = true ->
+  hstep sha1 cf disk ovf s (EFrame Unchoke) r = o ->
+  exists rest, acts_of o = map (fun i => ASend (Wire.Have i)) (h_msg_buff s) ++ ACmd KUnchoke :: rest /\
+               match out_state o with Some s' => h_msg_buff s' = [] | None => True end.
+Proof. exact unchoke_flushes. Qed.
+
+Print Assumptions C11_bitfield.
+Print Assumptions C11_broadcast.
+Print Assumptions C11_have_stays.
+Print Assumptions C11_actions.
+Print Assumptions C11_held_back.
+Print Assumptions C11_sent_at_once.
+Print Assumptions C11_flush.
